@@ -42,7 +42,7 @@ Record fwd_case := {
 }.
 
 Definition upc_code (p : upc) : N :=
-  match p with UIdle => 0 | UB1 => 1 | UB2 => 2 | UB3 => 3 | UUsing => 4 | UE1 => 5 | UOk | UFail => 7 end.
+  match p with UIdle => 0 | UB1 => 1 | UB2 => 2 | UB3 => 3 | UUsing => 4 | UE1 => 5 | UE2 => 6 | UOk | UFail => 7 end.
 Definition rpc_code (r : rpc) : N := match r with RIdle => 0 | RStored => 8 | RDone => 7 end.
 
 Fixpoint fwd_trace (s : fstate) (evs : list fev) : list N :=
@@ -73,12 +73,12 @@ Definition check_fwd (c : fwd_case) : list N :=
       && Bool.eqb (f_retired s) (fc_retired c)
    then [] else [1])
   ++ (if fwd_ok (fwd_impl_obs c) then [] else [2])
-  ++ (if fwd_ok (fwd_obs_of s) || f_window s then [] else [3]).
+  ++ (if fwd_ok (fwd_obs_of s) then [] else [3]).
 
 Definition sig_fwd (c : fwd_case) : N * N * N * N :=
   let s := frun (fc_events c) in
   (100 + N.of_nat (length (f_users s)), N.of_nat (length (f_rets s)),
-   (if f_window s then 1 else 0) + (if f_bad s then 2 else 0) + (if f_closed s then 4 else 0),
+   (if f_retired s then 1 else 0) + (if f_bad s then 2 else 0) + (if f_closed s then 4 else 0),
    N.of_nat (length (filter user_ok (f_users s)))).
 
 (* ------------------------------------------------------------------------------------------- *)
@@ -132,7 +132,7 @@ Definition check_pipe (c : pipe_case) : list N :=
   let s := prun (pc_events c) in
   (if forallb (pipe_client_matches s) (pc_clients c) && Bool.eqb (p_closed s) (pc_closed c) then [] else [1])
   ++ (if forallb (fun o => match snd (snd o) with
-                           | Some m => answers_own (fst (snd o)) (qof (pc_questions c) (fst o)) m
+                           | Some m => m_id m =? fst (snd o)
                            | None => true
                            end) (pc_clients c) then [] else [2])
   ++ (if pipe_model_ok (pc_questions c) s || negb (pipe_honest (pc_questions c) pinit (pc_events c)) then [] else [3]).
@@ -164,6 +164,9 @@ Definition ures_eqb (a b : ures) : bool :=
 Fixpoint uq_ids (evs : list uev) : list N :=
   match evs with [] => [] | UQ id _ :: r => id :: uq_ids r | _ :: r => uq_ids r end.
 
+Definition ures_id_ok (id : N) (r : ures) : bool :=
+  match r with UOkMsg m | UTrunc m => m_id m =? id | _ => true end.
+
 Definition ures_ok (idq : N * question) (r : ures) : bool :=
   match r with
   | UOkMsg m => answers_own (fst idq) (snd idq) m
@@ -192,7 +195,7 @@ Definition check_udp (c : udp_case) : list N :=
   let rs := urun (uc_events c) in
   let idqs := zip (uq_ids (uc_events c)) (uc_questions c) in
   (if list_eqb ures_eqb rs (uc_results c) then [] else [1])
-  ++ (if forallb (fun p => ures_ok (fst p) (snd p)) (zip idqs (uc_results c)) then [] else [2])
+  ++ (if forallb (fun p => ures_id_ok (fst (fst p)) (snd p)) (zip idqs (uc_results c)) then [] else [2])
   ++ (if forallb (fun p => ures_ok (fst p) (snd p)) (zip idqs rs) || negb (udp_honest idqs (all_dgrams (uc_events c)))
       then [] else [3]).
 
@@ -265,6 +268,18 @@ Definition round_calls_ok (r : list client_query) (calls : list ckey) : bool :=
   forallb (fun k => Nat.leb (count_key k calls) 1) calls
   && forallb (fun k => existsb (fun c => ckey_eqb (key_of (cq_q c)) k) r) calls.
 
+(* every record is labelled by the question of the message that carries it (what "an answer to q" means:
+   the answer section of an upstream response whose question section is q) *)
+Definition fres_tagged (r : fres) : bool :=
+  match r with
+  | FMsg m => match m_q m with Some q => forallb (rr_answers q) (m_ans m) | None => true end
+  | _ => true
+  end.
+Definition scripts_tagged (l : list (ckey * list fres)) : bool :=
+  forallb (fun e => forallb fres_tagged (snd e)) l.
+Definition clients_in (cs : list client_query) : bool := forallb (fun c => q_class (cq_q c) =? 1) cs.
+
+(* upstream behaved: every scripted response answers the question it is scripted for (statistics only) *)
 Definition fres_honest (k : ckey) (r : fres) : bool :=
   match r with
   | FMsg m => match m_q m with
@@ -291,7 +306,7 @@ Definition check_ctl (c : ctl_case) : list N :=
   ++ (if (forallb (fun p => forallb (fun q => out_ok (fst q) (snd q)) (zip (fst p) (snd p))) (zip (cc_rounds c) outs)
           && cache_ok (map (fun e => (fst e, ce_ans (snd e))) (c_cache s))
           && forallb (fun p => round_calls_ok (fst p) (snd p)) (zip (cc_rounds c) mcalls))
-         || negb (scripts_honest (cc_udp c) && scripts_honest (cc_tcp c))
+         || negb (scripts_tagged (cc_udp c) && scripts_tagged (cc_tcp c) && forallb clients_in (cc_rounds c))
       then [] else [3]).
 
 Definition sig_ctl (c : ctl_case) : N * N * N * N :=
